@@ -32,8 +32,8 @@ type step struct {
 	Busy int64 `json:"busy,omitempty"` // ns slept before returning
 }
 
-var c02Errs = []error{nil, errE1, errE2, errE3, valErr{9}, fmt.Errorf("wrapped: %w", errE1)}
-var c02ErrNames = []string{"nil", "E1", "E2", "E3", "valErr", "wrap(E1)"}
+var c02Errs = []error{nil, errE1, errE2, errE3, valErr{9}, fmt.Errorf("wrapped: %w", errE1), &ptrErr{9}}
+var c02ErrNames = []string{"nil", "E1", "E2", "E3", "valErr", "wrap(E1)", "ptrErr"}
 
 func (s step) String() string { return fmt.Sprintf("(%d,%s)", s.Res, c02ErrNames[s.Err]) }
 
@@ -57,6 +57,14 @@ func buildRetry(c retryCfg) retrypolicy.RetryPolicyBuilder[int] {
 			b.AbortOnResult(7)
 		case "I":
 			b.AbortIf(c12Pred)
+		case "EE":
+			b.AbortOnErrors(errE1, errE2)
+		case "EE2":
+			b.AbortOnErrors(errE2, errE1)
+		case "TT":
+			b.AbortOnErrorTypes(valErr{}, &ptrErr{})
+		case "TT2":
+			b.AbortOnErrorTypes(&ptrErr{}, valErr{})
 		default:
 			b.AbortOnErrorTypes(typeSample(a))
 		}
@@ -111,8 +119,8 @@ func retryExpect(c retryCfg, script []step) (stop int, how string, unjudged bool
 }
 
 func genRetryCase(r *rand.Rand) (retryCfg, []step) {
-	handles := []condSet{{}, {}, {"E"}, {"R"}, {"I"}, {"E", "R"}, {"Tv"}, {"R", "I"}, {"E", "Tvp", "R"}}
-	aborts := []condSet{{}, {}, {}, {"E"}, {"R"}, {"I"}, {"Tv"}, {"E", "R"}}
+	handles := []condSet{{}, {}, {"E"}, {"R"}, {"I"}, {"E", "R"}, {"Tv"}, {"R", "I"}, {"E", "Tvp", "R"}, {"TT"}, {"EE2", "R"}}
+	aborts := []condSet{{}, {}, {}, {"E"}, {"R"}, {"I"}, {"Tv"}, {"E", "R"}, {"TT2"}, {"EE"}}
 	c := retryCfg{MaxRetries: vk.Pick(r, 0, 1, 2, 3, 5, -1), ViaAttempts: r.IntN(3) == 0, Handle: handles[r.IntN(len(handles))], Abort: aborts[r.IntN(len(aborts))], ReturnLast: r.IntN(2) == 0}
 	n := c.MaxRetries + 3
 	if c.MaxRetries == -1 {
@@ -121,7 +129,7 @@ func genRetryCase(r *rand.Rand) (retryCfg, []step) {
 	n = 1 + r.IntN(n)
 	var script []step
 	for i := 0; i < n; i++ {
-		st := step{Res: vk.Pick(r, 0, 0, 7, 9, 5), Err: vk.Pick(r, 0, 1, 1, 2, 3, 4, 5)}
+		st := step{Res: vk.Pick(r, 0, 0, 7, 9, 5), Err: vk.Pick(r, 0, 1, 1, 2, 3, 4, 5, 6)}
 		if r.IntN(3) == 0 {
 			st.Err = 0
 		}
